@@ -1,5 +1,6 @@
 import Bw.Pipeline
 import Bw.Walk
+import Bw.Lemmas.WalkSim
 /-! # C01 — drift detection
 
 (1) the repaired hunk walk reports every added line at its own number and every deleted line at the
@@ -55,6 +56,32 @@ theorem d1_witness :
 theorem d9_witness :
     walk [.del, .del, .add, .keep] = [(1, true)] ∧ walkR [.del, .del, .add, .keep] = [(1, true), (2, false)] := by
   constructor <;> decide
+
+/-- **partial form of the full statement, for the code as it stands**: outside the decidable known classes
+    (`knownDel`: a flush that drops pending removals after an addition - D9 - or reports them under a line
+    number other than the current new-file line - D1) the code's walk IS the repaired walk -/
+theorem lineChanges_partial (segs : List Seg) (h : knownDel segs = false) : walk segs = walkR segs :=
+  walk_eq_walkR segs h
+
+/-- hence, outside the known classes, the code reports every added line at its own number … -/
+theorem add_has_entry_partial (p q : List Seg) (h : knownDel (p ++ .add :: q) = false) :
+    ∃ e, (1 + newCount p, e) ∈ walk (p ++ .add :: q) := by
+  rw [walk_eq_walkR _ h]; exact add_has_entry p q
+
+/-- … and every deleted line at the line after its gap -/
+theorem del_has_entry_partial (p q : List Seg) (h : knownDel (p ++ .del :: q) = false) :
+    ∃ e, (1 + newCount p, e) ∈ walk (p ++ .del :: q) := by
+  rw [walk_eq_walkR _ h]; exact del_has_entry p q
+
+/-- edit scripts without removed lines (pure additions, new files) are never in the known class -/
+theorem additions_only_exact (segs : List Seg) (h : ∀ s ∈ segs, s ≠ .del) : walk segs = walkR segs :=
+  walk_eq_walkR segs (noDel_not_known segs h)
+
+/-- the two witnesses are in the known class, an ordinary replacement and a deletion without shift are not -/
+theorem known_class_examples :
+    knownDel [.add, .add, .add, .keep, .keep, .del, .keep] = true ∧ knownDel [.del, .del, .add, .keep] = true ∧
+    knownDel [.keep, .del, .add, .keep] = false ∧ knownDel [.keep, .del, .keep] = false ∧
+    knownDel [.del, .add, .add, .keep, .del, .add] = false := by decide
 
 /-! ## (2) the code's walk over parsed hunks -/
 
